@@ -153,7 +153,7 @@ def run(ctx):
         elif src != 0:
             ctx.notes.append("race-detector stress run exited %d without a race report (ignored: supporting search)" % src)
     ctx.coverage.update({
-        "evaluations": len(ops), "distinct_nontrivial": len(traces),
+        "evaluations": len(ops) + len(totp_ops), "distinct_nontrivial": len(traces),
         "rule": "pairs of profile-mutating requests (U2F/TOTP token management actions, bootstrap OTP) on one user, each pair under all 6 interleavings of their load and save steps, forced deterministically on the real handlers by a wrapping database/sql driver; outcome (two statuses + final stored profile) compared with KM.Conc.run and with the pair's own two sequential outcomes; non-trivial = distinct realised storage traces",
         "exhaustive": not ctx.quick(), "pairs": len(pairs), "outcome_histogram": dict(hist), "non_serialisable_outcomes": anomalies,
         "lockset_table": {"accesses": len(facts.get("c16_accesses", [])), "unlocked": [a for a in facts.get("c16_accesses", []) if not a["locked"]]},
